@@ -1,2 +1,46 @@
-(* C11: statements only; theorems are added as the model of the anchored mechanism is proved *)
-From GGRS Require Import Base.
+(* C11 — changing input delay at run time keeps all peers in agreement (queue level).
+   Statements only. *)
+From GGRS Require Import Base Consts Queue QueueProofs QueueTheorems.
+Open Scope Z_scope.
+
+(* For every sequence of submissions, set_frame_delay calls (any values 0..=MAXD, any number of them
+   between two submissions, increases and decreases in any order), discards and reads of a local
+   player's queue that stays inside the 128-slot ring: no assert of the queue fires; what the session
+   hands to the remotes (first the blank frames before the first input, then every accepted input
+   and every fill returned by set_frame_delay, in call order) is exactly frame 0,1,2,... with the
+   values the queue holds - gapless, each frame once; and every value the owner's own simulation
+   reads was handed to the remotes for that same frame. *)
+Theorem C11_queue_stream : forall (predict : Z -> Z) (MAXD : Z) (ops : list lop) (s : lstate),
+  lrun predict MAXD ls_init ops <> Panic /\
+  (lrun predict MAXD ls_init ops = Ok s ->
+   exists (hist : list Z) (low : Z),
+     RInv (ls_q s) hist low /\ ls_sent s = stream hist /\
+     (forall u : pinput, In u (ls_used s) -> In u (ls_sent s))).
+Proof. exact local_queue_stream. Qed.
+
+(* the ring invariant re-proved for the generated queue length *)
+Theorem C11_ring_length : 0 < INPUT_QUEUE_LENGTH.
+Proof. exact QLEN_pos. Qed.
+
+(* non-vacuity: a run with a double increase and a decrease-then-increase between two inputs *)
+Definition c11_demo_ops : list lop :=
+  [LAdd 5; LAdd 6; LDelay 3; LDelay 5; LAdd 7; LInput 1; LDelay 1; LDelay 4; LAdd 8; LAdd 9; LDiscard 2; LInput 6].
+Example C11_demo :
+  exists s, lrun (fun x => x) 6 ls_init c11_demo_ops = Ok s /\
+            map pi_frame (ls_sent s) = [0;1;2;3;4;5;6;7;8] /\
+            map pi_val (ls_sent s) = [5;6;6;6;6;6;6;7;9] (* the submission 8 is dropped while the queue catches up *).
+Proof. eexists. split; [vm_compute; reflexivity|]. split; vm_compute; reflexivity. Qed.
+
+(* the code before the repair (set_frame_delay_old: fills computed from the difference of the two
+   delay values and not inserted) violates the stream property: two increases between two inputs
+   return frames 2,3,4 and then 2,3 again instead of 5,6 *)
+Definition q_after_two_inputs : queue :=
+  match add_input q_new 0 5 with
+  | Ok (q1, _) => match add_input q1 1 6 with Ok (q2, _) => q2 | _ => q_new end
+  | _ => q_new
+  end.
+Theorem C11_old_set_frame_delay_refuted :
+  let '(q1, fills1) := set_frame_delay_old q_after_two_inputs 3 in
+  let '(q2, fills2) := set_frame_delay_old q1 5 in
+  map pi_frame fills1 = [2;3;4] /\ map pi_frame fills2 = [2;3].
+Proof. vm_compute. split; reflexivity. Qed.
